@@ -2,7 +2,6 @@ package main
 
 import (
 	"fmt"
-	"os"
 	"sort"
 	"strings"
 
@@ -77,9 +76,7 @@ func c05Run(c *core.Ctx) *core.Result {
 				st.Uid = 4242
 			}
 			st.Gid = st.Gid/2 + 7
-			if os.FileMode(st.Mode)&os.ModeSymlink == 0 {
-				st.Mode &^= 0o002 // (a symlink's mode cannot be changed)
-			}
+			st.Mode &^= 0o002 // (also for symlinks: their permission bits are no difference)
 			return true
 		}
 		r.Count("histories_with_rewriting_filter", 1)
